@@ -2,8 +2,9 @@
   WS.Props.C03 — delivery is independent of transport segmentation and survives receive timeouts.
 -/
 import WS.Lemmas.Stream
+import WS.Lemmas.Timeouts
 namespace WS.Props.C03
-open WS WS.Model WS.Spec WS.Lemmas.RecvStrict WS.Lemmas.Parser WS.Lemmas.Stream
+open WS WS.Model WS.Spec WS.Lemmas.RecvStrict WS.Lemmas.Parser WS.Lemmas.Stream WS.Lemmas.Timeouts
 
 /-- a read on a released connection (`self.sock is None`) raises CLOSED and touches nothing. -/
 theorem sockRecv_released (c : Conn) (n : Nat) (h : c.hasSock = false) : c.sockRecv n = (.error .closed, c) := by
@@ -33,5 +34,15 @@ theorem C03_segmentation (ws : List WireFrame) (c₁ c₂ : Conn) (tail : Bytes)
   obtain ⟨b, hb, pb, _, _⟩ := recvFrames_decodes ws c₂ tail hl₂ hch₂ hclr₂ (hbytes ▸ hd)
   rw [ha, hb, hskip]
   exact ⟨rfl, pa.trans pb.symm⟩
+
+/-- **C03_timeout_recv_strict** — over ANY schedule of byte chunks and receive timeouts, a `recv_strict(n)` call
+    that raises TIMEOUT has consumed exactly one timeout event and left every pending byte (buffered or still in
+    the transport) and the parser's stage fields exactly as they were — so the retried call resumes without losing,
+    duplicating or reordering a byte; a call that completes saw no timeout and kept all pending bytes in order. -/
+theorem C03_timeout_recv_strict (c : Conn) (n : Nat) (hl : Live c) (hp : Plain c.sock.inp) :
+    StrictOut c n (Conn.recvStrictLoop (c.sock.size + 1) c n) := by
+  apply recvStrictLoop_plain _ c n hl hp
+  have := bytesOf_le_size c.sock.inp
+  unfold Sock.size; omega
 
 end WS.Props.C03
